@@ -24,7 +24,11 @@ func init() {
 			c := ci.(*SCase)
 			var o core.Outcome
 			if len(c.Changes) == 1 {
-				o = judgeModelBoth(env, &MCase{Change: c.Changes[0], File: c.File, Tag: c.Tag}, canon.Options{}, 1).Out
+				opts := canon.Options{}
+				if strings.HasPrefix(c.Tag, "F4-") {
+					opts.MaskImports = true // whether the matched import stays is C11's subject
+				}
+				o = judgeModelBoth(env, &MCase{Change: c.Changes[0], File: c.File, Tag: c.Tag}, opts, 1).Out
 			} else {
 				o = judgeSeqBoth(env, c, canon.Options{})
 			}
@@ -73,6 +77,8 @@ func c02Templates() []c02Template {
 		{id: "binary", kind: "expr", holes: 2, minus: "%[1]s + %[2]s", plus: "mark(%[1]s, %[2]s)", file: "package p\n\nvar _ = %[1]s + %[2]s\n", fill: [][]string{c02ExprFill, c02ExprFill}},
 		{id: "selector", kind: "expr", holes: 2, minus: "%[1]s.%[2]s", plus: "mark(%[1]s).%[2]s", file: "package p\n\nvar _ = %[1]s.%[2]s\n", fill: [][]string{{"a", "(a)", "b.c", "g(1)", "x", "n", "q"}, c02IdentFill}, identOnly: []bool{false, true}},
 		{id: "funcname", kind: "decl", holes: 2, minus: "func %[1]s() { %[2]s() }", plus: "func %[1]s() { mark(%[2]s) }", file: "package p\n\nfunc %[1]s() { %[2]s() }\n", fill: [][]string{c02IdentFill, {"a", "b.c", "x", "n", "q", "g(1)"}}, identOnly: []bool{true, false}},
+		// a label is a name-only slot that may be absent: no kind of metavariable stands for "nothing"
+		{id: "label", kind: "stmts", holes: 1, minus: "for { break %[1]s }", plus: "for { continue %[1]s }", file: "package p\n\nfunc _() {\nL:\n\tfor {\n\t\tfor {\n\t\t\tbreak %[1]s\n\t\t}\n\t}\n\tfor {\n\t\tbreak\n\t}\n}\n", fill: [][]string{{"L", "", "x"}}, identOnly: []bool{true}},
 		{id: "typedecl", kind: "decl", holes: 3, minus: "type %[1]s struct{ %[2]s %[3]s }", plus: "type %[1]s struct{ mark, %[2]s %[3]s }", file: "package p\n\ntype %[1]s struct{ %[2]s %[3]s }\n", fill: [][]string{c02IdentFill, c02IdentFill, c02TypeFill}, identOnly: []bool{true, true, false}},
 	}
 }
@@ -202,6 +208,18 @@ func c02Gen(tier string, emit func(any)) {
 			continue
 		}
 		emit(&SCase{Changes: []*model.Change{openPats[1]}, File: "package p\n\nvar _ = f(" + strings.Join(sq, ", ") + ")\n", Tag: "F2-leak-two-elisions/args"})
+	}
+	// F4: an identifier metavariable that names an import is bound by the import for the whole file, also when the file
+	// imports the path without a name
+	impCh := &model.Change{Kind: "expr", Meta: []model.MetaVar{{Name: "fooclient", Kind: "identifier"}},
+		Imports: []model.Import{{Tag: " ", Name: "fooclient", Path: "p/client"}}, Lines: model.L("-fooclient.Init()", "+compat.Init()")}
+	for _, spec := range []string{`"p/client"`, `fooclient "p/client"`, `cl "p/client"`, `metrics "p/client"`} {
+		for _, calls := range seqs([]string{"metrics.Init()", "logging.Init()", "fooclient.Init()", "cl.Init()", "client.Init()"}, 3) {
+			if len(calls) == 0 {
+				continue
+			}
+			emit(&SCase{Changes: []*model.Change{impCh}, File: "package p\n\nimport " + spec + "\n\nfunc _() {\n\t" + strings.Join(calls, "\n\t") + "\n}\n", Tag: "F4-import-metavar/" + spec})
+		}
 	}
 	// F3: a name is a metavariable only in the change that declares it
 	decl := func(vars ...string) []model.MetaVar { return c02Meta(vars) }
